@@ -326,7 +326,12 @@ func (x *Ctx) Exec(c *rosmar.Collection, bucket *rosmar.Bucket, op *GenOp) (a Ar
 	case "Delete":
 		err = c.Delete(op.Key)
 	case "Update":
+		askedU := false
 		casOut, err = c.Update(op.Key, exp, func(cur []byte) ([]byte, *uint32, bool, error) {
+			if op.Cb == "retry" && !askedU {
+				askedU = true
+				return nil, nil, false, sgbucket.ErrCasFailureShouldRetry // "call me again"
+			}
 			if x.onShown != nil {
 				// Update does not show the CAS; identify the version by the body's checksum instead
 				x.onShown(uint64(crc32.Checksum(cur, crc32.MakeTable(crc32.Castagnoli))) + 1)
@@ -335,8 +340,10 @@ func (x *Ctx) Exec(c *rosmar.Collection, bucket *rosmar.Bucket, op *GenOp) (a Ar
 			case "inc":
 				n, _ := strconv.ParseUint(string(cur), 10, 32)
 				return []byte(strconv.FormatUint(n+1, 10)), nil, false, nil
-			case "set":
+			case "set", "retry":
 				return body, nil, false, nil
+			case "err":
+				return []byte(`{"never":"stored"}`), nil, false, errors.New("callback failed")
 			case "del":
 				return nil, nil, true, nil
 			case "cancel":
